@@ -68,6 +68,7 @@ class Facts:
         self.cancels = []
         self.results_ops = []
         self.timeouts = {}  # ev -> event_timeout
+        self.registered_at = {}  # handler index -> seq of its bus.on()
         open_aw = {}
         open_pe = {}
         open_stop = {}
@@ -83,6 +84,8 @@ class Facts:
                 self.etype[r[3]] = r[4]
                 self.sid[r[3]] = r[6]
                 self.timeouts[r[3]] = r[7]
+            elif k == 'register':
+                self.registered_at[r[3]] = seq
             elif k == 'disp':
                 _, _, _, actor, bus, ev, outcome, hl = r
                 self.disps.append((seq, t, actor, bus, ev, outcome, hl))
@@ -188,11 +191,18 @@ class Facts:
             self._desc[ev] = d
         return d
 
-    def matching_handlers(self, bus, ev):
+    def matching_handlers(self, bus, ev, registered_before=None):
+        """scenario handlers of `bus` whose pattern matches ev (only those registered before seq
+        `registered_before`, if given; handlers never registered are excluded)"""
         typ = self.etype.get(ev)
         out = []
         for hi, h in enumerate(self.handlers):
             if h['bus'] == bus and h.get('kind') != 'forward' and h['pattern'] in (typ, '*'):
+                ra = self.registered_at.get(hi)
+                if ra is None:
+                    continue
+                if registered_before is not None and ra > registered_before:
+                    continue
                 out.append(hi)
         return out
 
